@@ -21,11 +21,26 @@ static int cls_of(const PDU* p) {
     }
 }
 static void set_tag(PDU* p, uint16_t tag);
+// a TCP layer also carries options that are a function of its tag (short in-place ones, long heap ones, none): copies and
+// assignments must carry them over exactly; tcp_opts_ok() is how a wrong option shows up in the printed tag (99997)
+static void tcp_opts_for(TCP* t, uint16_t tag) {
+    t->remove_option(TCP::SACK); t->remove_option(TCP::WSCALE); t->remove_option(TCP::TSOPT); t->remove_option(TCP::MSS);
+    if (tag % 3 == 1) { t->timestamp(0xdeadbe00u | (tag & 0xff), 0x01020304u); t->mss((uint16_t)(tag ^ 0x5555)); }
+    else if (tag % 3 == 2) { TCP::sack_type e; e.push_back(tag); e.push_back(tag + 10u); e.push_back(0x10000u + tag); e.push_back(0x20000u + tag); t->sack(e); t->winscale((uint8_t)(tag & 7)); }
+}
+static bool tcp_opts_ok(const TCP* t, uint16_t tag) {
+    try {
+        if (tag % 3 == 0) return t->options().empty();
+        if (tag % 3 == 1) { std::pair<uint32_t, uint32_t> ts = t->timestamp(); return t->options().size() == 2 && ts.first == (0xdeadbe00u | (tag & 0xff)) && ts.second == 0x01020304u && t->mss() == (uint16_t)(tag ^ 0x5555); }
+        TCP::sack_type e = t->sack();
+        return t->options().size() == 2 && e.size() == 4 && e[0] == tag && e[1] == tag + 10u && e[2] == 0x10000u + tag && e[3] == 0x20000u + tag && t->winscale() == (tag & 7);
+    } catch (std::exception&) { return false; }
+}
 static PDU* make(int cls, uint16_t tag) {
     switch (cls) {
         case C_RAW: { uint8_t b[2] = {(uint8_t)(tag >> 8), (uint8_t)tag}; return new RawPDU(b, 2); }
         case C_IP: { IP* p = new IP(); p->id(tag); return p; }
-        case C_TCP: { TCP* p = new TCP(); p->sport(tag); return p; }
+        case C_TCP: { TCP* p = new TCP(); p->sport(tag); tcp_opts_for(p, tag); return p; }
         case C_UDP: { UDP* p = new UDP(); p->sport(tag); return p; }
         case C_ETH: { EthernetII* p = new EthernetII(); set_tag(p, tag); return p; }
         case C_DNS: { DNS* p = new DNS(); p->id(tag); return p; }
@@ -39,7 +54,7 @@ static unsigned get_tag(const PDU* p) {
     switch (cls_of(p)) {
         case C_RAW: { const RawPDU::payload_type& b = static_cast<const RawPDU*>(p)->payload(); return b.size() >= 2 ? (b[0] << 8) | b[1] : 99999; }
         case C_IP: return static_cast<const IP*>(p)->id();
-        case C_TCP: return static_cast<const TCP*>(p)->sport();
+        case C_TCP: { const TCP* t = static_cast<const TCP*>(p); return tcp_opts_ok(t, t->sport()) ? t->sport() : 99997; }
         case C_UDP: return static_cast<const UDP*>(p)->sport();
         case C_ETH: { EthernetII::address_type a = static_cast<const EthernetII*>(p)->dst_addr(); return (a[4] << 8) | a[5]; }
         case C_DNS: return static_cast<const DNS*>(p)->id();
@@ -53,7 +68,7 @@ static void set_tag(PDU* p, uint16_t tag) {
     switch (cls_of(p)) {
         case C_RAW: { RawPDU::payload_type& b = static_cast<RawPDU*>(p)->payload(); b.assign(2, 0); b[0] = tag >> 8; b[1] = (uint8_t)tag; break; }
         case C_IP: static_cast<IP*>(p)->id(tag); break;
-        case C_TCP: static_cast<TCP*>(p)->sport(tag); break;
+        case C_TCP: static_cast<TCP*>(p)->sport(tag); tcp_opts_for(static_cast<TCP*>(p), tag); break;
         case C_UDP: static_cast<UDP*>(p)->sport(tag); break;
         case C_ETH: { EthernetII::address_type a; a[0] = 2; a[4] = tag >> 8; a[5] = (uint8_t)tag; static_cast<EthernetII*>(p)->dst_addr(a); break; }
         case C_DNS: static_cast<DNS*>(p)->id(tag); break;
